@@ -73,6 +73,9 @@ type c18Req struct {
 	pubs       []c18Pub
 	events     []BumpEvent
 	lastErr    error
+	// lastFailedRate is the FeeRate of the last TxFailed result: the
+	// starting rate the sweeper carries into the next attempt.
+	lastFailedRate int64
 	// beatResponsesNil is reset at every beat: all wallet answers given to
 	// this request during the beat were nil.
 	beatClean bool
@@ -663,6 +666,9 @@ func (h *c18Harness) drain(f2Allowed bool) error {
 			default:
 				r.live = false
 				r.lastErr = res.Err
+				if res.Event == TxFailed {
+					r.lastFailedRate = int64(res.FeeRate)
+				}
 			}
 		}
 	}
